@@ -309,6 +309,8 @@ class Ctx:
         self.zcache = {}              # (pcsig, key, sign) -> bool/None
         self.stats = {"z3_queries": 0, "z3_unknown": 0, "forks": 0, "z3_time": 0.0}
         self.skipped_boundaries = 0
+        self._ssmemo = {}
+        self.building = True
         self.pool_size = 3000
         self.samplers = []            # callables (RandomState, n) -> {var name: array} overriding the box
         self.pool_env = None
@@ -343,6 +345,7 @@ class Ctx:
     # ---- per path
     def _reset_path(self, prefix):
         self.prefix = list(prefix)
+        self.frozen = False
         self.trace = []
         self.pc = []
         self.facts = {}
@@ -356,11 +359,14 @@ class Ctx:
         self.zmap = None
         self._nside = 0
         self.pcsig = ()
+        self._ssmemo = {}
+        self.nodefacts = {}
         self.alive = None if self.pool_env is None else self.pool_alive0.copy()
         for node, S in self.pre:
             self._add_fact(node, S)
 
     def _add_fact(self, node, S):
+        self.nodefacts[node.id] = self.nodefacts.get(node.id, S_ALL) & S
         p = nf.nf(node)
         if not p:
             return
@@ -452,6 +458,17 @@ class Ctx:
         self.stats["z3_time"] += time.time() - t0
         self.stats["z3_queries"] += 1
         sol.pop()
+        if res == z3.unknown:
+            # second opinion: fresh non-incremental nlsat solver with a longer budget
+            s2 = z3.SolverFor("QF_NRA")
+            s2.set("timeout", 4 * self.z3_timeout_ms)
+            for a in sol.assertions():
+                s2.add(a)
+            s2.add({1: t > 0, -1: t < 0, 0: t == 0}[s * sg])
+            t0 = time.time()
+            res = s2.check()
+            self.stats["z3_time"] += time.time() - t0
+            self.stats["z3_queries"] += 1
         if res == z3.sat:
             r = True
         elif res == z3.unsat:
@@ -519,6 +536,8 @@ class Ctx:
         S = _PS[nf.poly_sign(p)]
         if len(S) > 1 and len(p) == 1:
             S = S & self._mono_signs(p)
+        if len(S) > 1:
+            S = S & self._struct_signs(node)
         key, flip = canon(p)
         f = self.facts.get(key)
         if f is not None:
@@ -549,7 +568,59 @@ class Ctx:
         S = frozenset(out)
         if S:
             self.facts[key] = flipset(S) if flip else S
+            if len(S) == 1 and self.nodefacts.get(node.id) != S:
+                self.nodefacts[node.id] = S
+                self._ssmemo = {}
         return S
+
+    def _struct_signs(self, node):
+        """structural sign analysis on the DAG (squares, sums of non-negatives, sqrt, exp)."""
+        memo = self._ssmemo
+        r = memo.get(node.id)
+        if r is not None:
+            return r
+        nfct = self.nodefacts.get(node.id)
+        if nfct is not None and len(nfct) == 1:
+            memo[node.id] = nfct
+            return nfct
+        o = node.op
+        P, N0 = frozenset((1,)), frozenset((0, 1))
+        if o == "c":
+            c = node.args[0]
+            r = frozenset(((c > 0) - (c < 0),))
+        elif o == "*":
+            a, b = node.args
+            if a is b:
+                r = N0
+            else:
+                sa, sb = self._struct_signs(a), self._struct_signs(b)
+                r = frozenset(x * y for x in sa for y in sb)
+        elif o == "+":
+            sa, sb = self._struct_signs(node.args[0]), self._struct_signs(node.args[1])
+            if sa <= N0 and sb <= N0:
+                r = P if (sa == P or sb == P) else N0
+            elif sa <= frozenset((-1, 0)) and sb <= frozenset((-1, 0)):
+                r = frozenset((-1,)) if (sa == frozenset((-1,)) or sb == frozenset((-1,))) else frozenset((-1, 0))
+            else:
+                r = S_ALL
+        elif o == "sqrt":
+            r = N0
+        elif o == "exp":
+            r = P
+        elif o == "inv":
+            r = self._struct_signs(node.args[0]) - {0} or S_ALL
+        elif o == "def":
+            r = self._struct_signs(node.args[0])
+            if node.args[1] in RELSET:
+                r = r & RELSET[node.args[1]]
+        elif o == "v":
+            r = RELSET.get(nf.VARSIGN.get(node.args[0]), S_ALL)
+        else:
+            r = S_ALL
+        if nfct is not None:
+            r = (r & nfct) or r
+        memo[node.id] = r
+        return r
 
     def _mono_signs(self, p):
         """sign set of a single-term polynomial using the path facts on sqrt radicands and
@@ -626,6 +697,11 @@ class Ctx:
                 return True
             # interior of each region only: the closure is covered by continuity (lemma L1)
             ST, SF = ST - {0}, SF - {0}
+        if getattr(self, "frozen", False):
+            raise RuntimeError("a comparison forked after the path was closed")
+        if self.building:
+            raise RuntimeError("a comparison forked while the contract inputs were being built "
+                               "(preconditions must be stated with ctx.assume, not decided)")
         i = len(self.trace)
         if i < len(self.prefix):
             val = self.prefix[i]
@@ -639,6 +715,8 @@ class Ctx:
 
     def _commit(self, d, S):
         self.pc.append((d, S))
+        self.nodefacts[d.id] = S
+        self._ssmemo = {}
         p = nf.nf(d)
         key, flip = canon(p)
         self.facts[key] = flipset(S) if flip else S
@@ -733,6 +811,7 @@ class PathResult:
 def explore(ctx, fun, want_witness=True):
     """Enumerate the feasible paths of fun() under ctx.pre. fun must be re-runnable."""
     global CTX
+    ctx.building = False
     work = [[]]
     paths = []
     while work:
